@@ -419,11 +419,16 @@ func checkC36(r *mon.Run) {
 		"grace over, grace zero, latest not yet valid / expired, predecessor missing / expired) on a real sqlite trust DB; SignerGen.Generate is " +
 		"compared with the selection model at both bracket instants; every accepted signer signs a message that must verify through " +
 		"trust.Verifier bound to the ISD-AS (real FetchingProvider); expired signers (generated and directly constructed, Sign and SignCMS) must " +
-		"refuse. class = timeline × tier × chain kind, expiry bound, sign outcome"
+		"refuse. Verifier histories: one trust.Verifier (with / without Cache) bound to the signer's ISD-AS over a FetchingProvider on a sqlite " +
+		"trust DB + scripted remote lives through messages of signers generated before/after a TRC update it has not seen; the first 0-2 attempts " +
+		"per message run under one transient fault (TRC/chain fetch, TRC/chain read, TRC/chain write, expired context, stale/empty answers); after " +
+		"the faults a valid signer's message must verify within 2 fault-free attempts, wrongly bound / tampered messages never. " +
+		"class = timeline × tier × chain kind, expiry bound, sign outcome; verifier: cache × TRC seen × chain location × root × fault × outcome"
 	r.Assumptions = []string{
 		"a signer not being generated for a key is not judged (the statement constrains generated signers); the run is reported broken unless every key with an eligible chain got a signer",
 		"chains of another ISD-AS are not eligible (a verifier bound to the signer's ISD-AS could not find them)",
 		"the InGrace flag itself is not judged, only chain choice and expiry",
+		"verifier histories: a signer is 'valid' if the selection model (evaluated at both bracket instants of the attempt) yields its chain for its key and it has not expired; attempts made while a fault is injected are not judged; no verdict waits for a cache entry to expire",
 	}
 	pool := gen.NewPool(64, 4, 4)
 	st := &c36Stats{}
@@ -441,6 +446,14 @@ func checkC36(r *mon.Run) {
 	for i := 0; i < nd; i++ {
 		c36Direct(r, pool, rngD, i, st)
 	}
+	// verifier side with state and faults
+	rngV := r.Rand("c36-verifier")
+	nv := r.Pick(100, 2400)
+	for i := 0; i < nv; i++ {
+		runC36VerifierHistory(r, pool, rngV, i)
+	}
+	r.Extra("verifier_histories", nv)
+	r.Extra("verifier_dimension_messages", c36DimCount)
 	r.Extra("signers_generated", st.signers)
 	r.Extra("signed_and_verified", st.verifyOK)
 	r.Extra("expired_refusals", st.refused)
@@ -449,6 +462,14 @@ func checkC36(r *mon.Run) {
 		r.Class("premise/eligible-keys-get-signers-and-live-signers-sign")
 	}
 	r.RequireClasses("premise/eligible-keys-get-signers-and-live-signers-sign",
-		"sign/generated/expired/refused", "sign/generated/live/verified")
-	r.Require(int64(n/2), 30, "signer_generated", "generate_no_signer", "signed_message_verified", "expired_signer_refused", "live_signer_signed")
+		"sign/generated/expired/refused", "sign/generated/live/verified",
+		"verifier/dimension/cache=true/unseen-trc-update/failed-notification-then-retry/verified",
+		"verifier/dimension/cache=false/unseen-trc-update/failed-notification-then-retry/verified",
+		"verifier/dimension/cache=true/failed-chain-lookup-then-retry/verified",
+		"verifier/dimension/cache=false/failed-chain-lookup-then-retry/verified",
+		"verifier/dimension/trc-update-in-the-middle-of-the-history",
+		"verifier/must-not/wrong-binding/rejected", "verifier/must-not/tampered/rejected")
+	r.Require(int64(n/2), 30, "signer_generated", "generate_no_signer", "signed_message_verified", "expired_signer_refused", "live_signer_signed",
+		"verifier_history", "verifier_valid_verified", "verifier_fault_hit", "verifier_faulty_attempt_failed", "verifier_learned_trc_update",
+		"verifier_retry_after_failed_trc_notification", "verifier_must_not_rejected")
 }
